@@ -10,6 +10,7 @@ COMMON_ASSUMPTIONS = [
 
 PROPS = {
     'C01': {
+        'extra_harnesses': r'^c04_memory_addr$|^c04_labels$',
         'explanation': 'ADD/ADC/SUB/SBB/CMP/INC/DEC/NEG kernels and the binary/unary arithmetic productions of the '
                        'interpreter grammar, decided against a reference for every operand value, flag word, register '
                        'choice, memory address and memory content',
@@ -28,6 +29,7 @@ PROPS = {
     },
 }
 PROPS['C02'] = {
+    'extra_harnesses': r'^c04_memory_addr$|^c04_labels$',
     'explanation': 'AND/OR/XOR/TEST and SHL/SAL/SHR/SAR/ROL/ROR/RCL/RCR kernels (and the interpreter productions that '
                    'apply them) against a reference that performs count single-bit 8086 steps',
     'bounds': 'count 0..255 is the whole operand domain; reference loop unwound 257 times with unwinding assertions; '
@@ -69,6 +71,7 @@ PROPS['C04'] = {
     'level_note': 'trusted: Kani/CBMC/solver soundness; LEA with a non-DS segment is a known finding',
 }
 PROPS['C05'] = {
+    'extra_harnesses': r'^c04_memory_addr$|^c04_labels$',
     'explanation': 'the 22 MOV, 6 XCHG, 4 PUSH, 3 POP productions and PUSHF/POPF/LAHF/SAHF/XLAT, against dst := src / swap / '
                    'stack-discipline oracles, plus PUSH x; POP y and a 4-step LIFO history from an arbitrary SS:SP',
     'bounds': 'each production from an arbitrary state (the inductive step of any stack history); histories of length 2 and 4',
